@@ -598,6 +598,12 @@ Proof.
     + split; [exact Hs|]. split; [|constructor; auto].
       intros k Hk. cbn [s_fs]. eapply put_file_frame; eauto. eapply not_inside_neq; eauto.
     + split; [exact Hs|]. split; [apply same_outside_refl|constructor; auto].
+  - (* STOR aborted *) apply NP in H as [(_ & -> & ->)|H]; auto.
+    destruct (put_file (s_fs s) (rp_of s p) part (s_append s)) eqn:E; inversion H; subst; cbn [r_touched].
+    + split; [exact Hs|]. split; [|constructor; auto].
+      intros k Hk. cbn [s_fs]. eapply put_file_frame; eauto. eapply not_inside_neq; eauto.
+    + split; [exact Hs|]. split; [apply same_outside_refl|constructor; auto].
+  - (* LIST without data *) inversion H; subst. post_same. constructor; auto.
   - (* APPE *) inversion H; subst. split; [exact Hs|]. split; [apply same_outside_refl|constructor].
   - (* REST *) inversion H; subst. split; [exact Hs|]. split; [apply same_outside_refl|constructor].
   - (* RETR *) apply NP in H as [(_ & -> & ->)|H]; auto.
@@ -645,6 +651,7 @@ Proof.
   - destruct p; eauto. destruct (os_remove (s_fs s) (rp_of s (n :: p))); eauto.
   - destruct p; eauto. destruct (os_rename (s_fs s) (rp_of s (s_rnfr s)) (rp_of s (n :: p))); eauto.
   - destruct p; eauto. destruct (put_file (s_fs s) (rp_of s (n :: p)) data (s_append s)); eauto.
+  - destruct p; eauto. destruct (put_file (s_fs s) (rp_of s (n :: p)) part (s_append s)); eauto.
   - destruct p; eauto. destruct (lookup (s_fs s) (rp_of s (n :: p))) as [[|c]|]; eauto.
   - destruct p; eauto. destruct (lookup (s_fs s) (rp_of s (n :: p))); eauto.
   - destruct p; eauto. destruct (lookup (s_fs s) (rp_of s (n :: p))) as [[|c]|]; eauto.
